@@ -7,6 +7,29 @@ VERIF = os.path.dirname(os.path.dirname(os.path.abspath(__file__)))
 ALL = [f"C{i:02d}" for i in range(1, 21)]
 
 CHECKS = {
+    "C01": dict(
+        technique="TLA+ Writer model (block stream, offset index) with index-following reader invariants checked by TLC; "
+                  "its complete depth-bounded call graph replayed into the real ArchiveWriter/ArchiveReader on 4 layer stackings",
+        text="TLC checks on every reachable state of the implementation-level Writer model (all interleavings of "
+             "start/append/end/add/finalize to the depth bound, piece lengths aligned on/next to chunk and block edges) "
+             "that following the offset index returns exactly what was appended (IndexSound, EofSound, SizeSound, "
+             "ListedAreReal); every transition is then executed on the real ArchiveWriter for none/compress/encrypt/both, "
+             "the projected writer state (position, ids, offsets, sizes) is compared with the model after each call and "
+             "each finalized archive is read back (listing, bytes, size, SHA-256) against the model's Files.",
+        design_ref="DESIGN.md section 5 C01",
+        note="Depth-bounded (6 quick / 7 thorough calls, 2-3 files); scaled constants CHUNK=20 BLOCK=48 (64 KiB names "
+             "under compression at production constants); levels/recipients sampled over the same runs; crypto and "
+             "brotli bit-level fidelity delegated to C06."),
+    "C09": dict(
+        technique="TLA+ Writer model with every call enabled in every state (TLC: RefusedIsNoOp action property, "
+                  "ShortNeverOk, AllOkThenReadable); complete call graph incl. refused self-loops replayed into the real ArchiveWriter",
+        text="All call sequences, valid or not, to the depth bound are enumerated by TLC; refused calls are self-loops of "
+             "the model graph and are executed on the real writer at every node with the projected state compared "
+             "before/after; the sequence continues and the finalized archive is read back against the model's Files, "
+             "which ignores refused calls.",
+        design_ref="DESIGN.md section 5 C09",
+        note="Depth-bounded; names {a,b,65537-byte,(65536-byte, empty)}; ids {open, ended, never issued}; sources "
+             "{exact, short by one, long}; after a short source nothing further is specified."),
     "C11": dict(
         technique="TLA+ implementation-level models of the layer readers refining ByteStream (TLC), complete "
                   "transition graph exported and replayed edge by edge into the real readers with hidden-state comparison",
